@@ -11,7 +11,7 @@ SPEC = {
                                     "C11_is_equal_symmetric_refuted", "C11_perm_invariant_unconditional_refuted",
                                     "C11_is_equal_reads_position", "C11_position_regression",
                                     "C11_protocol_delivers_exactly_once", "C11_protocol_no_deadlock",
-                                    "C11_protocol_terminates", "C11_runs_agree", "C11_H2_from_job_invariants",
+                                    "C11_protocol_terminates", "C11_protocol_matches_source", "C11_runs_agree", "C11_H2_from_job_invariants",
                                     "C11_nonvacuous"]},
     "harness_args": lambda tier: ["C11", "--n", 300, "--perms", 14, "--scen", 24, "--bin", 5] if tier == "quick"
                                  else ["C11", "--n", 1800, "--perms", 30, "--scen", 160, "--bin", 40, "--race", 1],
